@@ -157,12 +157,25 @@ func c14Run(c c14Case, res *WRes) {
 	type found struct {
 		idt, at, code, where string
 	}
+	var consent func([]string) []string
+	if c.Extra == "openid-not-granted" {
+		// the resource owner grants everything requested except openid
+		consent = func(req []string) []string {
+			var out []string
+			for _, s := range req {
+				if s != "openid" {
+					out = append(out, s)
+				}
+			}
+			return out
+		}
+	}
 	var got []found
 	var o *Obs
 	switch c.Flow {
 	case "code", "refresh":
 		params.Set("response_type", "code")
-		o = w.Authorize(params, AuthzOpts{Session: mkSess()})
+		o = w.Authorize(params, AuthzOpts{Session: mkSess(), GrantScopes: consent})
 		if code := o.Param("code"); code != "" {
 			to := w.Token(url.Values{"grant_type": {"authorization_code"}, "code": {code}, "redirect_uri": {"https://A.example/cb"}}, w.AuthFor("A"))
 			if c.Flow == "code" {
@@ -182,7 +195,7 @@ func c14Run(c c14Case, res *WRes) {
 		}
 	case "implicit-idt", "implicit-idt-tok", "hyb-idt", "hyb-tok", "hyb-all":
 		params.Set("response_type", map[string]string{"implicit-idt": "id_token", "implicit-idt-tok": "id_token token", "hyb-idt": "code id_token", "hyb-tok": "code token", "hyb-all": "code id_token token"}[c.Flow])
-		o = w.Authorize(params, AuthzOpts{Session: mkSess()})
+		o = w.Authorize(params, AuthzOpts{Session: mkSess(), GrantScopes: consent})
 		got = append(got, found{idt: o.Param("id_token"), at: o.Param("access_token"), code: o.Param("code"), where: "authorization response"})
 		if code := o.Param("code"); code != "" {
 			to := w.Token(url.Values{"grant_type": {"authorization_code"}, "code": {code}, "redirect_uri": {"https://A.example/cb"}}, w.AuthFor("A"))
@@ -218,6 +231,10 @@ func c14Run(c c14Case, res *WRes) {
 		}
 		if c.Extra == "no-openid" {
 			viol("C14/id-token-without-openid-scope/"+tag, "an ID token was issued for a grant without the openid scope", "no id_token", g.where)
+			continue
+		}
+		if c.Extra == "openid-not-granted" && c.Flow != "device" {
+			viol("C14/id-token-without-granted-openid-scope/"+tag, "an ID token was issued although the openid scope was requested but not granted", "no id_token", g.where)
 			continue
 		}
 		if c.Extra == "empty-subject" {
@@ -358,7 +375,7 @@ func init() {
 						for _, pr := range []string{"", "none", "login", "login consent", "consent"} {
 							for _, hi := range []string{"none", "same", "other", "expired-same"} {
 								for _, ps := range []string{"none", "future", "past"} {
-									for _, ex := range []string{"none", "override-reserved", "preset-audience", "empty-subject", "no-openid"} {
+									for _, ex := range []string{"none", "override-reserved", "preset-audience", "empty-subject", "no-openid", "openid-not-granted"} {
 										if ex != "none" && (hi != "none" || ma != "") {
 											continue // extras are crossed with the prompt/auth_time/preset grid only
 										}
